@@ -106,6 +106,7 @@ func init() {
 			return b
 		},
 		"vTier": func(fr *frame, a []value) value { return fr.i.p.tier },
+		"vSchedPoint": func(fr *frame, a []value) value { return nil }, // native-only schedule perturbation; the engine switches at acquiring operations
 		"vAssume": func(fr *frame, a []value) value {
 			fr.i.assume(boolTerm(fr.i, a[0]))
 			return nil
